@@ -315,6 +315,36 @@ def run(eng, rep) -> None:
             n_err += 1
             exc_names = {h.name for h in ast.walk(f.node) if isinstance(h, ast.ExceptHandler) and h.name and h.type is not None and "FileNotFound" in norm(h.type)}
             okm = any(mentions(eng, f, x, fname_roots | exc_names) for x in list(n.args) + [k.value for k in n.keywords])
+            if not okm:
+                # arguments that are locals set differently on the arms of a preceding if: each arm must name the module
+                arg_names = [x.id for x in list(n.args) + [k.value for k in n.keywords] if isinstance(x, ast.Name)]
+                for blk in [b_ for b_ in ast.walk(f.node) if isinstance(getattr(b_, "body", None), list)]:
+                    for fld in ("body", "orelse", "handlers"):
+                        seq = getattr(blk, fld, None)
+                        if not isinstance(seq, list):
+                            continue
+                        stmts_ = [x_ for x_ in seq if isinstance(x_, ast.stmt)]
+                        idx = next((i_ for i_, st_ in enumerate(stmts_) if any(y is n for y in ast.walk(st_))), None)
+                        if idx is None:
+                            continue
+                        prev_ifs = [st_ for st_ in stmts_[:idx] if isinstance(st_, ast.If) and st_.orelse]
+                        if not prev_ifs:
+                            continue
+                        the_if = prev_ifs[-1]
+
+                        def arm_names(arm):
+                            """True when on EVERY path through `arm` one of the arguments is (re)bound to something that names the module"""
+                            for a_ in arm:
+                                if isinstance(a_, (ast.Assign, ast.AugAssign)):
+                                    tg = a_.targets[0] if isinstance(a_, ast.Assign) else a_.target
+                                    if isinstance(tg, ast.Name) and tg.id in arg_names and mentions(eng, f, a_.value, fname_roots | exc_names):
+                                        return True
+                                elif isinstance(a_, ast.If):
+                                    if a_.orelse and arm_names(a_.body) and arm_names(a_.orelse):
+                                        return True
+                            return False
+                        if arm_names(the_if.body) and arm_names(the_if.orelse):
+                            okm = True
             rep.check(okm, "R20.3", f.file, f.qual, norm(n, 90), "error mentions the module file",
                       "failure while importing a module is reported without naming the module/file (on some path neither the message nor the cited node carries the module's file name)")
     rep.floor("R20.3", "error constructions in the import callback", n_err, 1)
